@@ -28,6 +28,8 @@ type V4Config struct {
 	NilLoader bool          // construct the server with a nil *ebpf.Loader instead of an unloaded one
 	Loader    *ebpf.Loader  // optional: a loader prepared by the harness (e.g. with kernel maps injected); overrides NilLoader
 	DNS       []string      // optional: DNS servers of the pool (default 8.8.8.8)
+	// RADIUSAuth sets ServerConfig.RADIUSAuthEnabled (C16; the RADIUS client itself is attached in Setup).
+	RADIUSAuth bool
 	// Sleep advances time by d (inside a synctest bubble: time.Sleep + synctest.Wait).
 	// nil = time.Sleep.
 	Sleep func(d time.Duration)
@@ -115,7 +117,7 @@ func NewV4(cfg V4Config) *V4 {
 	if sip == "" {
 		sip = cfg.Gateway
 	}
-	s, err := dhcp.NewServer(dhcp.ServerConfig{Interface: "lo", ServerIP: net.ParseIP(sip)}, loader, pm, lg)
+	s, err := dhcp.NewServer(dhcp.ServerConfig{Interface: "lo", ServerIP: net.ParseIP(sip), RADIUSAuthEnabled: cfg.RADIUSAuth}, loader, pm, lg)
 	if err != nil {
 		panic(err)
 	}
